@@ -258,6 +258,14 @@ start_pass_fdctmgr(j_compress_ptr cinfo)
         cinfo->quant_tbl_ptrs[qtblno] == NULL)
       ERREXIT1(cinfo, JERR_NO_QUANT_TABLE, qtblno);
     qtbl = cinfo->quant_tbl_ptrs[qtblno];
+    /* A quantization value of 0 is not legal (jpeg_add_quant_table() never
+     * produces one, but an application can store one directly), and it would
+     * cause a division by zero below or in quantize().
+     */
+    for (i = 0; i < DCTSIZE2; i++) {
+      if (qtbl->quantval[i] == 0)
+        ERREXIT1(cinfo, JERR_NO_QUANT_TABLE, qtblno);
+    }
     /* Compute divisors for this quant table */
     /* We may do this more than once for same table, but it's not a big deal */
     switch (cinfo->dct_method) {
